@@ -830,6 +830,18 @@ class NP:
     def sin(self, x):
         return _map(lambda e: e.sin(), x)
 
+    def arctan2(self, y, x):
+        """only for concrete arguments (evaluated in floating point, as the code itself does)"""
+        ya, xa = numpy.broadcast_arrays(numpy.asarray(y, dtype=object), numpy.asarray(x, dtype=object))
+        out = numpy.empty(ya.shape, dtype=object)
+        for i in numpy.ndindex(*ya.shape):
+            a, b = Sym.lift(ya[i]), Sym.lift(xa[i])
+            if not (a.isconc() and b.isconc()):
+                raise NotImplementedError("arctan2 of symbolic arguments")
+            St.float_evals += 1
+            out[i] = Sym(math.atan2(float(a.re), float(b.re)))
+        return out.view(SA) if out.ndim else out[()]
+
     def abs(self, x):
         return _map(abs, x)
     absolute = abs
